@@ -36,6 +36,9 @@ def scenarios(thorough):
             continue
         for perms, umask in ((-1, 0o022), (0o600, 0o077), (0, 0o022)) if not thorough else ((-1, 0o022), (-1, 0o077), (0o600, 0o022), (0o644, 0o077), (0, 0o077), (0o444, 0o022)):
             out.append(base_cfg(body=body, text_mode=text, dest_present=dp, overwrite=ow, perms=perms, umask=umask))
+    for perms, umask, dmode in ((0o755, 0o022, 0o640), (-1, 0, 0o750), (-1, 0o022, 0), (-1, 0o002, 0o604), (0o775, 0, 0)):
+        for dp in (False, True):
+            out.append(base_cfg(body="three", dest_present=dp, perms=perms, umask=umask, dest_mode=dmode))
     # the second save of a long-lived saver object (descriptors opened in between)
     for body, text in (("three", False), ("big", True), ("one", False)):
         out.append(base_cfg(body=body, text_mode=text, dest_present=True, warm_saver=True))
